@@ -1,1 +1,74 @@
 //! Verification hooks for the behaviour-level gossipsub checks (only with `--cfg libp2p_verif`).
+//!
+//! Visibility shims only: the real codec is used to turn wire bytes into the handler event the
+//! behaviour consumes, and a constructor is provided for the otherwise unnameable
+//! `HandlerEvent::PeerKind` value. See also the `verif_*` accessors at the end of
+//! `behaviour.rs` and `handler.rs`.
+
+use asynchronous_codec::{Decoder, Encoder};
+use bytes::BytesMut;
+
+use crate::{
+    config::Config,
+    handler::HandlerEvent,
+    protocol::GossipsubCodec,
+    rpc_proto::proto,
+    types::PeerKind,
+};
+
+fn codec_for(config: &Config) -> GossipsubCodec {
+    let p = config.protocol_config();
+    GossipsubCodec::new(
+        p.default_max_transmit_size,
+        p.validation_mode,
+        p.max_transmit_sizes,
+        p.max_publish_messages,
+        p.max_control_message_size,
+    )
+}
+
+/// Decodes one length-prefixed RPC frame from `src` with the real [`GossipsubCodec`] configured
+/// from `config`, exactly as the connection handler's inbound substream would.
+pub fn decode(config: &Config, src: &mut BytesMut) -> Result<Option<HandlerEvent>, String> {
+    codec_for(config).decode(src).map_err(|e| e.to_string())
+}
+
+/// Encodes a protobuf RPC into one length-prefixed frame with the real [`GossipsubCodec`].
+pub(crate) fn encode(config_max: usize, rpc: proto::Rpc) -> Result<Vec<u8>, String> {
+    let mut codec = GossipsubCodec::new(
+        config_max,
+        crate::ValidationMode::None,
+        Default::default(),
+        usize::MAX,
+        usize::MAX,
+    );
+    let mut dst = BytesMut::new();
+    codec.encode(rpc, &mut dst).map_err(|e| e.to_string())?;
+    Ok(dst.to_vec())
+}
+
+/// The handler event announcing the negotiated protocol of a peer.
+/// 0 = not supported, 1 = floodsub, 2 = gossipsub 1.0, 3 = 1.1, 4 = 1.2, anything else = 1.3.
+pub fn peer_kind_event(kind: u8) -> HandlerEvent {
+    HandlerEvent::PeerKind(match kind {
+        0 => PeerKind::NotSupported,
+        1 => PeerKind::Floodsub,
+        2 => PeerKind::Gossipsub,
+        3 => PeerKind::Gossipsubv1_1,
+        4 => PeerKind::Gossipsubv1_2,
+        _ => PeerKind::Gossipsubv1_3,
+    })
+}
+
+/// Numeric view of a [`PeerKind`] as reported by `Behaviour::peer_protocol` (same numbering as
+/// [`peer_kind_event`]).
+pub fn peer_kind_code(kind: &PeerKind) -> u8 {
+    match kind {
+        PeerKind::NotSupported => 0,
+        PeerKind::Floodsub => 1,
+        PeerKind::Gossipsub => 2,
+        PeerKind::Gossipsubv1_1 => 3,
+        PeerKind::Gossipsubv1_2 => 4,
+        PeerKind::Gossipsubv1_3 => 5,
+    }
+}
